@@ -92,9 +92,11 @@ class Monitor(object):
         if ev['k'] in ('boot', 'start'):
             self.booted = True
         if self.multi:
-            # the history left the single-connection regime (already reported under C12): what follows is a
-            # consequence of that finding and is not attributed to the other properties
-            return
+            # the history left the single-connection regime (already reported under C12): what follows is a consequence of
+            # that finding and is not attributed to the properties stated for the single-connection regime.  C13 is stated
+            # "whatever the peer, pending timers or pending attempts do" and C12 about every connection: those two go on
+            # being judged.
+            self.only = {'C12', 'C13'} if self.only is None else (set(self.only) & {'C12', 'C13'})
         prev = self.prev or {'state': 'IDLE', 'conns': [], 'proto': None, 'timers': {}, 'now': 0}
         outs = obs['outs']
         k = ev['k']
@@ -450,7 +452,7 @@ class Monitor(object):
         probes = getattr(self, '_probes', None)
         if probes is None:
             pool = dict(SG.message_pool(self.cfg['remote_as']))
-            probes = self._probes = {pool['update_aspath4']: True, pool['update_aspath2']: False}
+            probes = self._probes = {pool['update_aspath4']: True, pool['update_aspath2']: False, pool['update_as4path_first']: False}
         if b not in probes or any(o[0] == 'unmodelled' for o in outs):
             return
         c = ev['c']
